@@ -5,6 +5,7 @@ Set Implicit Arguments.
 
 Inductive op :=
 | OPush (k : nat) (f : N) (u : uval)          (* slot, input form, value *)
+| OTryPush (k : nat) (form : N) (u : uval) (* a push that may be REFUSED (panic): the history goes on, state untouched *)
 | OProbe (k : nat)                             (* every index issued since the last clear, all accessors *)
 | ORead (k : nat)                              (* ... owned value only *)
 | OProbeOwned (k : nat)                        (* ... probe of borrow_as(&into_owned(item)) *)
@@ -55,6 +56,16 @@ Section Machine.
             match push R (s_st x) v with
             | Ok (s', i) => ([BIdx (idx_u Wr i)], Some (set_slot sl k {| s_st := s'; s_log := s_log x ++ [i] |}))
             | Panic => ([BPanic], None)
+            end
+        end
+    | OTryPush k f u =>
+        match of_u Wr u with
+        | None => ([BIll], None)
+        | Some v =>
+            let x := get_slot sl k in
+            match push R (s_st x) v with
+            | Ok (s', i) => ([BIdx (idx_u Wr i)], Some (set_slot sl k {| s_st := s'; s_log := s_log x ++ [i] |}))
+            | Panic => ([BPanic], Some sl)
             end
         end
     | OProbe k =>
